@@ -34,7 +34,7 @@ SCHEMA = {
         ("style", 8),
         ("typed", 2),
         ("at", 2),
-        ("exit", len(progs.EXITS)),
+        ("exit", 16),
         ("sf", progs.N_FS),
         ("ef", progs.N_FS),
         ("xf", 3),
